@@ -9,20 +9,27 @@ from ..core import Case
 
 ID = 'C04'
 MANIFEST = {
-    'text': ('Coq theorems (Properties/C04.v): C04_extract_refines -- Frame._extract over TypeBlocks._extract/_slice_blocks '
-             '(directory lookup, contiguous bundling, per-block NumPy slicing, single_row re-shaping, from_blocks, the Frame/Series/element '
-             'decision tree) equals the 2-D specification S_extract on the flattened frame for EVERY block layout, row key and column key; '
-             'C04_extract_exact / C04_scalar_reduces characterise S cell by cell; C04_loc_map_refines / C04_loc_auto_refines -- the label '
-             'translation (LocMap with +1 stops, loc_is_iloc fast path, Boolean Series reindexing) equals selection at the label positions; '
-             'C04_label_slice_inclusive, C04_absent_label_raises, C04_bool_series_aligned, C04_period_select; kernel theorems about the '
-             'REGENERATED TypeBlocks._cols_to_slice and util.slice_to_inclusive_slice. Correspondence: API-level runs through [] / .loc / '
-             '.iloc / .bloc on Series and Frames over every block layout, flat / auto-integer / IndexDate / IndexYearMonth / hierarchical '
-             'axes, every key kind, evaluated against M and S inside Coq; kernel-level exhaustive small inputs.'),
-    'note': ('trusted: Coq kernel, py2v translator (validated per run), harness; oracles: NumPy indexing of ONE array by a row key, the '
-             'FrozenAutoMap dictionary, datetime64 unit conversion (swept against NumPy each run). Partial: hierarchical axes and datetime '
-             'axes are compared with the specification S only (their label translation is C05 / not modelled as M); when both keys are '
-             'malformed the class of the first error is not modelled. Known findings are listed in known/C04.jsonl with Refuted/C04.v witnesses.'),
-    'technique': 'refinement proof M_extract = S_extract for all layouts + differential correspondence evaluated in Coq',
+    'text': ('Coq theorems (Properties/C04.v, all closed under the global context): C04_extract_refines_all_keys / C04_extract_refines -- '
+             'Frame._extract as the code runs it (TypeBlocks._extract: integer-column fast path or _key_to_block_slices + per-block NumPy '
+             'slicing + the single_row re-shaping + from_blocks; extraction of both indices; the Frame/Series/element decision tree) equals the '
+             '2-D specification S_extract on the flattened frame for EVERY block layout, every row key and every column key (unbounded, by '
+             'induction over blocks and bundles); C04_decision_is_source -- that decision tree IS the if/elif chain of Frame._extract, regenerated '
+             'from /repo by generate() on every run; C04_select_columns_exact, C04_cols_to_slice_is_source (block walk, regenerated _cols_to_slice); '
+             'C04_extract_exact, C04_scalar_reduces -- S cell by cell: addressed cell, own labels, key order, scalar key removes its axis; '
+             'C04_loc_map_refines, C04_loc_auto_refines -- the label translation (LocMap with +1 stops, loc_is_iloc fast path with the regenerated '
+             'slice_to_inclusive_slice, Boolean Series reindexed with False, ILoc) selects exactly the positions of the labels; '
+             'C04_inclusive_slice_is_source, C04_inclusive_slice_includes_stop, C04_label_slice_inclusive, C04_absent_label_raises, '
+             'C04_bool_series_aligned, C04_period_select. Refuted/C04.v: one witness per guard. Correspondence (evaluated inside Coq against '
+             'M and S): [] / .loc / .iloc / .bloc on Series and Frames over every block layout, flat / auto-integer / IndexDate / '
+             'IndexYearMonth / hierarchical axes, every key kind incl. malformed keys; kernels _indices_to_contiguous_pairs, '
+             '_key_to_block_slices, _extract_array, slice_to_inclusive_slice on exhaustive small inputs; NumPy datetime64 unit oracle sweep.'),
+    'note': ('trusted: Coq kernel, py2v translator and the generate() extractor (fail closed, re-run every time), harness; oracles: NumPy indexing '
+             'of ONE array by a row key, the FrozenAutoMap dictionary, datetime64 D->M->Y conversion (swept against NumPy each run). Partial: '
+             'hierarchical and datetime axes and .bloc are compared with the specification through the public interface but their label '
+             'translation has no refinement theorem (hierarchical translation is C05; bloc M is checked cell-order-exact, S as a set); when both '
+             'keys are malformed the class of the first error is not modelled; cells are atomic in the theorems (tuple cells: finding). '
+             'Eight known findings are listed in known/C04.jsonl, each tagged by construction of the input and witnessed every run.'),
+    'technique': 'refinement proof M_extract = S_extract for all layouts + source-regenerated decision tree/kernels + differential correspondence evaluated in Coq',
 }
 PROPERTY_FILES = ['Properties/C04.v']
 REFUTED_FILES = ['Refuted/C04.v']
@@ -761,7 +768,7 @@ def api_frame_iloc_colwalk(ctx):
     rng = ctx.rng
     row_keys = [pk_none(), pk_int(1), pk_int(-1), pk_slice(1, 2, None), pk_slice(None, None, -1), pk_list([2]), pk_list([2, 0]),
                 pk_mask([False, True, False]), pk_mask([True, False, True]), pk_slice(2, 0, -1)]
-    for pattern, n in ((('iiii', 3), ('iii', 3), ('ii', 3), ('i', 3)) if ctx.tier == 'thorough' else (('iiii', 3),)):
+    for pattern, n in ((('iiii', 3), ('ii', 2)) if ctx.tier == 'thorough' else (('iiii', 3),)):
         for layout in zoo.layouts_for(dtypes_of(pattern)):
             fr = make_frame(pattern, layout, n)
             frl = frame_lit(fr)
@@ -959,6 +966,19 @@ def api_series(ctx):
                 for _ in range(ctx.n(14, 60)):
                     k = random_lk(rng, ikind_eff, labels)
                     yield from emit_series(ctx, 'api:series.loc', sr, srl, sdesc, 'loc' if rng.random() < 0.7 else 'getitem', k, ikind)
+
+
+def api_witnesses(ctx):
+    """The canonical input of each finding class that the random streams could miss: known findings must be witnessed every run."""
+    fr = make_frame('iiii', ((2, True), (1, False), (1, True)), 4)
+    fdesc = {'columns_dtypes': 'iiii', 'layout': '2d|1s|1d', 'rows': 4, 'index': 'str', 'columns': 'str',
+             'build': 'sfv.props.c04.make_frame(columns_dtypes, layout, rows)'}
+    yield from emit_frame_iloc(ctx, 'api:frame.iloc', fr, frame_lit(fr), fdesc, pk_slice(0, 2, None), pk_slice(0, 0, None))
+    yield from emit_frame_iloc(ctx, 'api:frame.iloc', fr, frame_lit(fr), fdesc, pk_list([3, 1]), pk_mask([False] * 4))
+    sr = make_series('i', 4, 'hier')
+    sdesc = {'values_dtype': 'i', 'len': 4, 'index': 'hier', 'build': 'sfv.props.c04.make_series(values_dtype, len, index)'}
+    yield from emit_series(ctx, 'api:series.iloc', sr, series_lit(sr), sdesc, 'iloc', pk_list([0, 2, 1]), 'hier')
+    yield from emit_series(ctx, 'api:series.loc', sr, series_lit(sr), sdesc, 'loc', lk_list([('b', 1), ('a', 2), ('b', 2)]), 'hier')
 
 
 def api_series_label_slices(ctx):
@@ -1259,6 +1279,7 @@ def cases(ctx):
     yield from api_frame_tuples(ctx)
     yield from api_series(ctx)
     yield from api_series_label_slices(ctx)
+    yield from api_witnesses(ctx)
     yield from api_datetime(ctx)
     yield from api_bloc(ctx)
     yield from oracle_datetime(ctx)
